@@ -697,6 +697,11 @@ func (g *pgen) pluginConfig() *doc.Node {
 		return e
 	case 3:
 		g.feat("plugincfg:scalar")
+		if g.chance(2) {
+			// a whole config that is a zero scalar is still a config, not "no config"
+			g.feat("plugincfg:zero-scalar")
+			return Pick(g.r, []*doc.Node{doc.B(false), doc.I(0), doc.F(0), doc.S("")})
+		}
 		return Scalar(g.r, ValueOpts{Str: g.o.Str, NoTime: true, SmallInts: g.o.SmallInts})
 	}
 	if g.o.Sharing && len(g.configs) > 0 && g.chance(4) {
